@@ -138,6 +138,34 @@ class PassDirective:
         self._hit(ctx, "output")
         return await next_directive(value, ctx, info)
 
+    async def on_field_collection(self, directive_args, next_directive, field_node, ctx):
+        self._hit(ctx, "field-collection")
+        return await next_directive(field_node, ctx)
+
+    async def on_fragment_spread_collection(self, directive_args, next_directive, fragment_spread_node, ctx):
+        self._hit(ctx, "spread-collection")
+        return await next_directive(fragment_spread_node, ctx)
+
+    async def on_inline_fragment_collection(self, directive_args, next_directive, inline_fragment_node, ctx):
+        self._hit(ctx, "inline-collection")
+        return await next_directive(inline_fragment_node, ctx)
+
+
+def make_source(fq):
+    """subscription source: yields scn.source_events in order, one scheduling point before each"""
+    async def source(parent, args, ctx, info):
+        scn = scenario_of(ctx)
+        scn.counters["source"] += 1
+        scn.events.append(("source-start", fq, freeze(args)))
+        for i, ev in enumerate(list(scn.source_events)):
+            if scn.sched is not None:
+                await scn.sched.point(("s", i))
+            scn.events.append(("source-yield", i))
+            yield ev
+        scn.events.append(("source-end", fq))
+
+    return source
+
 
 def register(schema, name, resolvers="all", typecfg=None, subscriptions=None, skip_scalars=(), directive_impl=None):
     """apply the decorators for a schema model under schema_name `name`"""
@@ -161,6 +189,9 @@ def register(schema, name, resolvers="all", typecfg=None, subscriptions=None, sk
     for d in schema.directives:
         impl = (directive_impl or {}).get(d.name) or PassDirective(d.name)
         Directive(d.name, schema_name=name)(impl)
+    if subscriptions is None and schema.subscription and schema.type(schema.subscription):
+        subscriptions = {"%s.%s" % (schema.subscription, f.name): make_source("%s.%s" % (schema.subscription, f.name))
+                         for f in schema.type(schema.subscription).fields}
     for fq, gen in (subscriptions or {}).items():
         Subscription(fq, schema_name=name)(gen)
 
@@ -187,3 +218,20 @@ def execute(engine, text, scn, operation_name=None, variables=None, context="scn
     root = scn.root if initial_value == "root" else initial_value
     return run(engine.execute(text, operation_name=operation_name, context=ctx, variables=variables,
                               initial_value=root))
+
+
+def subscribe_all(engine, text, scn, operation_name=None, variables=None, limit=1000):
+    """drive engine.subscribe to exhaustion; returns the list of yielded responses"""
+    scn.reset()
+    CURRENT[0] = scn
+
+    async def go():
+        out = []
+        async for r in engine.subscribe(text, operation_name=operation_name, context=scn, variables=variables,
+                                        initial_value=scn.root):
+            out.append(r)
+            if len(out) >= limit:
+                break
+        return out
+
+    return run(go())
